@@ -12,16 +12,21 @@ var _ = wazevoapi.ExitCodeMemoryOutOfBounds
 func gr(n string) int { return verif_ghost_int(n) }
 
 func isOOBCheck(i *Instruction) bool {
-	return i.opcode == OpcodeExitIfTrueWithCode && i.u1 == uint64(wazevoapi.ExitCodeMemoryOutOfBounds)
+	return i.opcode == OpcodeExitIfTrueWithCode &&
+		(i.u1 == uint64(wazevoapi.ExitCodeMemoryOutOfBounds) || i.u1 == uint64(wazevoapi.ExitCodeTableOutOfBounds))
 }
 
-// oobShape: the condition of the check is the latest comparison, which is
-//   memLen <u (zext32->64(address) + constant)
-// built from the latest zero-extension, constant and addition.
+// oobShape: the condition of a bounds check is the latest comparison, which is  length <u (a + b)  with
+// a + b the latest addition.
 func oobShape(i *Instruction) bool {
-	return int(i.v2) == gr("icmpRet") && gr("icmpC") == int(IntegerCmpCondUnsignedLessThan) &&
-		gr("icmpY") == gr("iaddRet") && gr("iaddX") == gr("uextRet") && gr("iaddY") == gr("iconstRet") &&
-		gr("uextFT") == 32<<8|64
+	return int(i.v2) == gr("icmpRet") && gr("icmpC") == int(IntegerCmpCondUnsignedLessThan) && gr("icmpY") == gr("iaddRet")
+}
+
+func b2g(b bool) int {
+	if b {
+		return 1
+	}
+	return 0
 }
 
 //@ prop C02
@@ -36,5 +41,6 @@ func oobShape(i *Instruction) bool {
 //@   ensures[iconst] (raw.opcode == OpcodeIconst ==> gr("iconstVal") == int(raw.u1) && gr("iconstRet") == int(raw.rValue)) && (raw.opcode != OpcodeIconst ==> gr("iconstVal") == old(gr("iconstVal")) && gr("iconstRet") == old(gr("iconstRet")))
 //@   ensures[iadd] (raw.opcode == OpcodeIadd ==> gr("iaddX") == int(raw.v) && gr("iaddY") == int(raw.v2) && gr("iaddRet") == int(raw.rValue)) && (raw.opcode != OpcodeIadd ==> gr("iaddX") == old(gr("iaddX")) && gr("iaddY") == old(gr("iaddY")) && gr("iaddRet") == old(gr("iaddRet")))
 //@   ensures[icmp] (raw.opcode == OpcodeIcmp ==> gr("icmpX") == int(raw.v) && gr("icmpY") == int(raw.v2) && gr("icmpC") == int(raw.u1) && gr("icmpRet") == int(raw.rValue)) && (raw.opcode != OpcodeIcmp ==> gr("icmpX") == old(gr("icmpX")) && gr("icmpY") == old(gr("icmpY")) && gr("icmpC") == old(gr("icmpC")) && gr("icmpRet") == old(gr("icmpRet")))
-//@   ensures[oob] (isOOBCheck(raw) ==> gr("oobChecks") == old(gr("oobChecks")) + 1 && gr("oobArg") == old(gr("uextArg")) && gr("oobCeil") == old(gr("iconstVal")) && gr("oobLen") == old(gr("icmpX"))) && (!isOOBCheck(raw) ==> gr("oobChecks") == old(gr("oobChecks")) && gr("oobArg") == old(gr("oobArg")) && gr("oobCeil") == old(gr("oobCeil")) && gr("oobLen") == old(gr("oobLen")))
-//@   modifies raw.rValue, ghost("uextArg"), ghost("uextRet"), ghost("uextFT"), ghost("iconstVal"), ghost("iconstRet"), ghost("iaddX"), ghost("iaddY"), ghost("iaddRet"), ghost("icmpX"), ghost("icmpY"), ghost("icmpC"), ghost("icmpRet"), ghost("oobChecks"), ghost("oobArg"), ghost("oobCeil"), ghost("oobLen")
+//@   ensures[oob] isOOBCheck(raw) ==> gr("oobChecks") == old(gr("oobChecks")) + 1 && gr("oobCode") == int(raw.u1) && gr("oobLen") == old(gr("icmpX")) && gr("oobAddX") == old(gr("iaddX")) && gr("oobAddY") == old(gr("iaddY")) && gr("oobArg") == old(gr("uextArg")) && gr("oobCeil") == old(gr("iconstVal")) && gr("oobViaExt") == old(b2g(gr("iaddX") == gr("uextRet") && gr("uextFT") == 32<<8|64)) && gr("oobViaConst") == old(b2g(gr("iaddY") == gr("iconstRet")))
+//@   ensures[not-oob] !isOOBCheck(raw) ==> gr("oobChecks") == old(gr("oobChecks")) && gr("oobCode") == old(gr("oobCode")) && gr("oobLen") == old(gr("oobLen")) && gr("oobAddX") == old(gr("oobAddX")) && gr("oobAddY") == old(gr("oobAddY")) && gr("oobArg") == old(gr("oobArg")) && gr("oobCeil") == old(gr("oobCeil")) && gr("oobViaExt") == old(gr("oobViaExt")) && gr("oobViaConst") == old(gr("oobViaConst"))
+//@   modifies raw.rValue, ghost("uextArg"), ghost("uextRet"), ghost("uextFT"), ghost("iconstVal"), ghost("iconstRet"), ghost("iaddX"), ghost("iaddY"), ghost("iaddRet"), ghost("icmpX"), ghost("icmpY"), ghost("icmpC"), ghost("icmpRet"), ghost("oobChecks"), ghost("oobCode"), ghost("oobArg"), ghost("oobCeil"), ghost("oobLen"), ghost("oobAddX"), ghost("oobAddY"), ghost("oobViaExt"), ghost("oobViaConst")
